@@ -62,7 +62,7 @@ def gen_notes(rng, cls, le, core, base):
     return out, exp
 
 
-def image(cls, le, etype, notes, p_align):
+def image(cls, le, etype, notes, p_align, sec_size=None):
     e = '<' if le else '>'
     ident = b'\x7fELF' + bytes([1 if cls == 32 else 2, 1 if le else 2, 1, 0]) + b'\x00' * 8
     ehsz, phsz, shsz = (64, 56, 64) if cls == 64 else (52, 32, 40)
@@ -77,7 +77,7 @@ def image(cls, le, etype, notes, p_align):
         if cls == 64:
             return struct.pack(e + 'IIQQQQIIQQ', name, typ, 0, 0, off, size, 0, 0, 4, 0)
         return struct.pack(e + 'IIIIIIIIII', name, typ, 0, 0, off, size, 0, 0, 4, 0)
-    shdrs = sh(0, 0, 0, 0) + sh(1, 7, note_off, len(notes)) + sh(9, 3, str_off, len(strtab))
+    shdrs = sh(0, 0, 0, 0) + sh(1, 7, note_off, len(notes) if sec_size is None else sec_size) + sh(9, 3, str_off, len(strtab))
     if cls == 64:
         hdr = ident + struct.pack(e + 'HHIQQQIHHHHHH', etype, 62, 1, 0, ehsz, shoff, 0, ehsz, phsz, 1, shsz, 3, 2)
         ph = struct.pack(e + 'IIQQQQQQ', 4, 4, note_off, 0, 0, len(notes), len(notes), p_align)
@@ -115,13 +115,25 @@ def one_case(rng):
     # the extent's file offset is fixed by the layout: build twice (offsets in the expectations are absolute)
     _img, base = image(cls, le, etype, b'', p_align)
     notes, exp = gen_notes(rng, cls, le, etype == 4, base)
-    img, base2 = image(cls, le, etype, notes, p_align)
+    # the usual link-editor layout: the PT_NOTE segment covers several note sections and starts where the first of them
+    # starts -- one time in three the section holds only the first k notes of the segment's extent
+    k = len(exp)
+    if exp and rng.random() < 0.34:
+        k = rng.randrange(1, len(exp) + 1)
+    sec_size = None if k == len(exp) else exp[k - 1]['n_offset'] + exp[k - 1]['n_size'] - base
+    img, base2 = image(cls, le, etype, notes, p_align, sec_size)
     assert base == base2
-    cfg = 'class %d le=%s e_type=%d p_align=%d notes=%r' % (cls, le, etype, p_align, [(x['n_name'], x['n_type'], x['n_descsz']) for x in exp])
+    cfg = 'class %d le=%s e_type=%d p_align=%d notes=%r; the section holds the first %d' % (
+        cls, le, etype, p_align, [(x['n_name'], x['n_type'], x['n_descsz']) for x in exp], k)
     ef = ELFFile(io.BytesIO(img))
     sec = ef.get_section_by_name('.note.x')
     seg = next(ef.iter_segments('PT_NOTE'))
-    for label, it in (('section', sec), ('segment', seg), ('section again', sec)):
+    order = [('section', sec), ('segment', seg), ('section again', sec)]
+    if rng.random() < 0.5:
+        order = [('segment', seg), ('section', sec), ('segment again', seg)]
+    full = exp
+    for label, it in order:
+        exp = full[:k] if label.startswith('section') else full
         got = [view(n) for n in it.iter_notes()]
         if got != exp:
             i = next((k for k, (a, b) in enumerate(zip(got, exp)) if a != b), min(len(got), len(exp)))
